@@ -1001,6 +1001,20 @@ def fn_shape(case, ctx):
 
 # =============================================================================================== 4. angles
 @st.composite
+def tri2_st(draw, mode):
+    """three planar points; one time in three the directions from the middle point lie on either side of the negative x axis"""
+    v2 = vec_st(mode, 2)
+    A, B, C = draw(v2), draw(v2), draw(v2)
+    if draw(st.integers(0, 2)) == 0:
+        pos = st.integers(1, 6).map(float) if mode == "int" else st.integers(1, 48).map(lambda k: k / 8.0)
+        A = [B[0] - draw(pos), B[1] + draw(pos)]
+        C = [B[0] - draw(pos), B[1] - draw(pos)]
+        if draw(st.booleans()):
+            A, C = C, A
+    return [A, B, C]
+
+
+@st.composite
 def angle_case(draw):
     mode = draw(st.sampled_from(MODES))
     v3, v2 = vec_st(mode, 3), vec_st(mode, 2)
@@ -1010,7 +1024,7 @@ def angle_case(draw):
     s = draw(st.sampled_from(SCALES))                 # every angle is scale invariant
     return {"mode": mode, "V1": scaled(V1, s), "V2": scaled(V2, s), "N": draw(v3), "tri": scaled(draw(triangle_st(mode)), s),
             "u": scaled(draw(v2), s), "w": scaled(draw(v2), s), "scale": s, "ityped": draw(st.integers(0, 3)) == 0,
-            "tri2": scaled([draw(v2), draw(v2), draw(v2)], s)}
+            "tri2": scaled(draw(tri2_st(mode)), s)}
 
 
 def kahan_angle(u, w):
